@@ -450,7 +450,10 @@ def strategy():
     conflict = st.tuples(st.sampled_from([(3, 2), (4, 1), (3, 1), (4, 2)]), st.integers(0, 3)).map(
         lambda t: {"s": t[0][0], "hold": t[1], "unsolicited": [t[0][1]]})
     from vf.hist import weighted
-    stmt = weighted((7, stmt), (1, conflict))
+    # a temperature query answered on the acknowledgement line itself
+    # ("ok T:.. /.. B:.."): the reading belongs to that very statement
+    okq = st.integers(0, 3).map(lambda h: {"s": 4, "hold": h, "okline": True})
+    stmt = weighted((7, stmt), (1, conflict), (1, okq))
     return st.fixed_dictionaries({
         "transport": st.sampled_from(["serial", "serial", "socket"]),
         "greeting": st.sampled_from(["start", None, "Grbl 1.1"]),
